@@ -191,6 +191,17 @@ class UInterp(mirsym.Interp):
             return cont(st, Opaque('unit'))
         if n.endswith('mem::forget'):
             return cont(st, Opaque('unit'))
+        mpe = re.search(r'<(NonNull|ptr::NonNull) as PartialEq>::(eq|ne)$', n)
+        if mpe and len(args) >= 2:
+            # pointer identity of two handles' allocation pointers (e.g. "did the callback replace the Arc?")
+            vals = []
+            for x in args[:2]:
+                v = st.load(x) if isinstance(x, Ptr) and x.root[0] != 'H' else x
+                vals.append(unwrap_ptr(v))
+            a, b = vals
+            if isinstance(a, Ptr) and isinstance(b, Ptr):
+                same = (a.root, tuple(a.path)) == (b.root, tuple(b.path))
+                return cont(st, same if mpe.group(2) == 'eq' else not same)
         if n.endswith('needs_drop'):
             known = st.mem.get(('TYPEPROP', 'needs_drop'))
             for val in ((True, False) if known is None else (known,)):
